@@ -126,7 +126,9 @@ def guesses_by_structure(ruledir):
 
 
 TRAINED_LIST = ['alice@gmail.com123', 'bob@yahoo.com7', 'carol@gmail.com', 'www.google.com1', 'password1', 'password1', 'monkey12', 'Summer19',
-                'abcdefghijklmnopqrst1', 'x1', 'dragon!', 'dragon!', 'letmein', '12345', 'qwer1234']
+                'abcdefghijklmnopqrst1', 'x1', 'dragon!', 'dragon!', 'letmein', '12345', 'qwer1234',
+                # segments that begin or end with a blank (or are blanks): a value is as long as its label says, blanks included
+                'abc! 123', 'dog !1', 'my  pass', ' lead1', 'trail9 ']
 
 
 def guess_level_case(spec, opts, rules_dir, trained=None):
@@ -358,6 +360,7 @@ def run(ctx):
     greal += 1
     # trainer -> edit_rules -> guesser: a ruleset trained from a list with e-mail / web-site passwords followed by further segments
     viol += guess_level_case(None, {'min_length': 0, 'max_length': 10, 'terminal_set': False, 'regex': None}, rules_dir, trained=TRAINED_LIST)
+    viol += guess_level_case(None, {'min_length': 8, 'max_length': 8, 'terminal_set': False, 'regex': None}, rules_dir, trained=TRAINED_LIST)
     greal += 1
     cases += greal
     # CLI level: the same through edit_rules.py in the snapshot
